@@ -191,7 +191,7 @@ mut("opexec_params_copied_after_the_call", ["C12"], "calAndSetEventNode.wrapOpEv
     [("compiler.go", "\t\t\teventParams := make([]Value, len(params))\n\t\t\tcopy(eventParams, params)\n\n\t\t\tres, err = op(ctx, params)\n", "\t\t\tres, err = op(ctx, params)\n\t\t\teventParams := make([]Value, len(params))\n\t\t\tcopy(eventParams, params)\n")], "the event shows the arguments as the operator left them, not as it was called")
 mut("dump_takes_operand_slots_of_any_late_kind", ["C06"], "Dump.getChildIdxes/safety",
     [("util.go", "\t\tif e.nodes[idx].getNodeType() == cond {\n\t\t\tres = []int16{", "\t\tif e.nodes[idx].getNodeType() >= cond {\n\t\t\tres = []int16{")], "Dump indexes four operand slots of event nodes as well")
-mut("split_lines_cuts_one_byte_late", ["C06"], "splitLinesOutsideStrings/safety",
+mut("split_lines_cuts_one_byte_late", ["C06"], "splitLinesOutsideStrings/",
     [("util.go", "\t\t\t\tres = append(res, s[start:i])\n\t\t\t\tstart = i + 1", "\t\t\t\tres = append(res, s[start:i])\n\t\t\t\tstart = i + 2")], "the text after a final line break is sliced beyond its end")
 mut("parent_table_one_slot_short", ["C09"], "calAndSetParentIndex/",
     [("compiler.go", "\tsize := int16(len(e.nodes))\n\tf := make([]int16, size)\n\n\tqueue := make([]*astNode, 0, size)", "\tsize := int16(len(e.nodes))\n\tf := make([]int16, size-1)\n\n\tqueue := make([]*astNode, 0, size)")], "the parent table misses the slot of the last node")
